@@ -12,7 +12,7 @@ Lemma credit_sum_run ops : forall c, c_used c = sum_high (c_streams c) ->
   c_used (frun c ops) = sum_high (c_streams (frun c ops)).
 Proof.
   induction ops as [|op r IH]; intros c H; cbn [frun fold_left]; [exact H|].
-  apply IH. pose proof (used_tracks_highest c op). lia.
+  apply IH. apply credit_sum_step. exact H.
 Qed.
 
 Lemma credit_is_sum_of_highest_l cl ops :
